@@ -25,7 +25,7 @@ struct HorizonExceeded {};
 extern Monitor mon;
 inline R DRAW(int site){ if (mon.next>=mon.horizon) throw HorizonExceeded(); unsigned h=2166136261u; for(int i=0;i<mon.sp;i++){h=(h^(unsigned)mon.stack[i])*16777619u;} h=(h^(unsigned)site)*16777619u;
   mon.draw_sites.push_back(site); mon.draw_ctx.push_back(h); double v = mon.source(mon.next, mon.ctx); mon.draw_vals.push_back(v); mon.next++; return v; }
-inline void margin(R a, R b,int line){ mon.ncmp++; if (mon.log_cmps && (int)mon.next-1==mon.log_draw) mon.cmps.push_back({(int)mon.next-1,line,a,b,0}); if (a==b) return; double m = std::fabs(a-b)/(std::fabs(a)+std::fabs(b)); if (m<mon.min_margin) { mon.min_margin=m; mon.min_margin_line=line; } }
+inline void margin(R a, R b,int line){ mon.ncmp++; if (mon.log_cmps && (mon.log_draw==-2 || (int)mon.next-1==mon.log_draw)) mon.cmps.push_back({(int)mon.next-1,line,a,b,0}); if (a==b) return; double m = std::fabs(a-b)/(std::fabs(a)+std::fabs(b)); if (m<mon.min_margin) { mon.min_margin=m; mon.min_margin_line=line; } }
 inline bool CMP_LT(R a,R b,int l){ margin(a,b,l); return a<b; }
 inline bool CMP_LE(R a,R b,int l){ margin(a,b,l); return a<=b; }
 inline bool CMP_GT(R a,R b,int l){ margin(a,b,l); return a>b; }
@@ -36,15 +36,15 @@ inline void qmargin(R a,R b){ if (a==b) return; double m = std::fabs(a-b)/(std::
 inline bool QCMP_LT(R a,R b,int){ qmargin(a,b); return a<b; } inline bool QCMP_LE(R a,R b,int){ qmargin(a,b); return a<=b; }
 inline bool QCMP_GT(R a,R b,int){ qmargin(a,b); return a>b; } inline bool QCMP_GE(R a,R b,int){ qmargin(a,b); return a>=b; }
 inline bool QCMP_EQ(R a,R b,int){ return a==b; } inline bool QCMP_NE(R a,R b,int){ return a!=b; }
-inline void smargin(R a, R b,int line){ mon.ncmp++; if (mon.log_cmps && (int)mon.next-1==mon.log_draw) mon.cmps.push_back({(int)mon.next-1,line,a,b,1}); if (a==b) return; double m = std::fabs(a-b)/(std::fabs(a)+std::fabs(b)); if (m<mon.min_smargin) mon.min_smargin=m; }
+inline void smargin(R a, R b,int line){ mon.ncmp++; if (mon.log_cmps && (mon.log_draw==-2 || (int)mon.next-1==mon.log_draw)) mon.cmps.push_back({(int)mon.next-1,line,a,b,1}); if (a==b) return; double m = std::fabs(a-b)/(std::fabs(a)+std::fabs(b)); if (m<mon.min_smargin) mon.min_smargin=m; }
 inline bool SCMP_LT(R a,R b,int l){ smargin(a,b,l); return a<b; } inline bool SCMP_LE(R a,R b,int l){ smargin(a,b,l); return a<=b; }
 inline bool SCMP_GT(R a,R b,int l){ smargin(a,b,l); return a>b; } inline bool SCMP_GE(R a,R b,int l){ smargin(a,b,l); return a>=b; }
 inline bool SCMP_EQ(R a,R b,int){ return a==b; } inline bool SCMP_NE(R a,R b,int){ return a!=b; }
-inline void tmargin(R a, R b,int line){ mon.ncmp++; if (mon.log_cmps && (int)mon.next-1==mon.log_draw) mon.cmps.push_back({(int)mon.next-1,line,a,b,3}); if (a==b) return; double m = std::fabs(a-b)/(std::fabs(a)+std::fabs(b)); if (m<mon.min_tmargin) mon.min_tmargin=m; }
+inline void tmargin(R a, R b,int line){ mon.ncmp++; if (mon.log_cmps && (mon.log_draw==-2 || (int)mon.next-1==mon.log_draw)) mon.cmps.push_back({(int)mon.next-1,line,a,b,3}); if (a==b) return; double m = std::fabs(a-b)/(std::fabs(a)+std::fabs(b)); if (m<mon.min_tmargin) mon.min_tmargin=m; }
 inline bool TCMP_LT(R a,R b,int l){ tmargin(a,b,l); return a<b; } inline bool TCMP_LE(R a,R b,int l){ tmargin(a,b,l); return a<=b; }
 inline bool TCMP_GT(R a,R b,int l){ tmargin(a,b,l); return a>b; } inline bool TCMP_GE(R a,R b,int l){ tmargin(a,b,l); return a>=b; }
 inline bool TCMP_EQ(R a,R b,int){ return a==b; } inline bool TCMP_NE(R a,R b,int){ return a!=b; }
-inline void cmargin(R a, R b,int line){ mon.ncmp++; if (mon.log_cmps && (int)mon.next-1==mon.log_draw) mon.cmps.push_back({(int)mon.next-1,line,a,b,2}); }
+inline void cmargin(R a, R b,int line){ mon.ncmp++; if (mon.log_cmps && (mon.log_draw==-2 || (int)mon.next-1==mon.log_draw)) mon.cmps.push_back({(int)mon.next-1,line,a,b,2}); }
 inline bool CCMP_LT(R a,R b,int l){ cmargin(a,b,l); if (a<b) mon.clamp_fired++; return a<b; } inline bool CCMP_LE(R a,R b,int l){ cmargin(a,b,l); return a<=b; }
 inline bool CCMP_GT(R a,R b,int l){ cmargin(a,b,l); return a>b; } inline bool CCMP_GE(R a,R b,int l){ cmargin(a,b,l); return a>=b; }
 inline bool CCMP_EQ(R a,R b,int){ return a==b; } inline bool CCMP_NE(R a,R b,int){ return a!=b; }
